@@ -14,7 +14,13 @@ OPAQUE_MUT_TYPES = ("cosmwasm_std::DepsMut", "dyn [", "cosmwasm_std::QuerierWrap
 
 
 def is_prefix(a, b):
-    return len(a) <= len(b) and b[:len(a)] == a
+    # (index elements compare equal whatever the index local is: ("[]", 3) ~ ("[]", 7) ~ ("[]",))
+    if len(a) > len(b):
+        return False
+    for x, y in zip(a, b):
+        if x != y and not (x[0] == "[]" and y[0] == "[]"):
+            return False
+    return True
 
 
 class Def:
@@ -38,7 +44,9 @@ def place_path(proj):
     for p in proj:
         if p[0] == "f":
             out.append(("f", p[2], p[4]))
-        elif p[0] in ("i", "ci", "sub"):
+        elif p[0] == "i":
+            out.append(("[]", p[1]))   # the index local is kept so that a read `xs[i]` can say which entry it reads
+        elif p[0] in ("ci", "sub"):
             out.append(("[]",))
     return tuple(out)
 
@@ -322,19 +330,23 @@ class BodyEval:
                     r = E("adt", vals, (base, "", tuple(fn for fn, _ in fields)))
                 else:
                     covering = [d for d in rel if len(d.path) <= len(path)]
-                    basev = mk_phi([self.project(self.def_value(d), path[len(d.path):]) for d in covering]) if covering else UNKNOWN
+                    basev = mk_phi([self.project(self.def_value(d), path[len(d.path):], bb, idx) for d in covering]) if covering else UNKNOWN
                     r = E("upd", [basev] + [self.def_value(d) for d in sorted(deeper, key=lambda d: d.id)])
             elif not rel:
                 r = E("undef", (), (self.body.path, local))
             else:
-                r = mk_phi([self.project(self.def_value(d), path[len(d.path):]) for d in sorted(rel, key=lambda d: d.id)])
+                r = mk_phi([self.project(self.def_value(d), path[len(d.path):], bb, idx) for d in sorted(rel, key=lambda d: d.id)])
         finally:
             self._inprog.discard(key)
         self._memo[key] = r
         return r
 
-    def project(self, e, rest):
+    def project(self, e, rest, bb=None, idx=None):
         for p in rest:
+            if p[0] == "[]" and len(p) > 1 and bb is not None:
+                # slice / array indexing by a local: the same shape as Vec indexing (Index::index(base, i))
+                e = E("call", (e, self.ev_lp(bb, idx, p[1], ())), "std::ops::Index::index", (self.body.path, bb))
+                continue
             if p[0] == "f":
                 if e.op == "param" and self.is_closure and e.info[1] == 1 and p[1].isdigit():
                     n = int(p[1])
